@@ -5,7 +5,7 @@ import ast
 from typing import Dict, List, Optional, Set, Tuple
 
 from . import astu
-from .facts import Run, cond_pol, normal
+from .facts import Run, cond_pol, effects_toggle, normal
 from .interp import Coll, Ctx, analyse_function, analyse_method
 from .model import AnalysisError, ClassInfo, iter_functions
 from .report import RuleResult
@@ -48,11 +48,11 @@ def rule_DC(run: Run) -> RuleResult:
         e0 = composed_of(p0, "evaluate")
         if e0 is None:
             continue
-        dis = cond_pol(p0.conds, "Child(_effects_disabled)")
+        dis = cond_pol(p0.conds, f"Child({effects_toggle(run)})")
         if (dis, e0.target.key()) in seen_terms:
             continue
         seen_terms.add((dis, e0.target.key()))
-        paths.append(_P([c for c in p0.conds if "_effects_disabled" in c[0]], e0.target))
+        paths.append(_P([("self._effects_disabled", dis, f"Child({effects_toggle(run)})")] if dis is not None else [], e0.target))
     fn = ds.find_method("evaluate")[1]
     for cand in list(ds.methods.values()) + [None]:
         if cand is not None and cand.name not in ("evaluate", "validate", "keys", "explain") and any(isinstance(x, ast.Name) and x.id in ("cached", "Cached") for x in ast.walk(cand)):
@@ -294,6 +294,15 @@ CL_EXEMPT = {
 }
 
 
+def _cl_exempt(repo) -> Dict[str, str]:
+    """the exemption, keyed by the mixin class's current name"""
+    try:
+        mix = repo.role_class("dsc_mixin")
+        return {f"{mix.qualname}.__init__": CL_EXEMPT["labrea.datasetclass._DatasetClassMixin.__init__"]}
+    except AnalysisError:
+        return dict(CL_EXEMPT)
+
+
 def _op_sites(repo, m, cls, fn) -> List[ast.Call]:
     out = []
     ann_nodes: Set[str] = set()
@@ -447,13 +456,14 @@ def rule_CL(run: Run) -> RuleResult:
             entry[q] = "helper-step constructor"
         elif cls is not None and cls.name in ("DatasetFactory",) and last in ("__call__", "nocache"):
             entry[q] = "dataset decorator"
+    cl_exempt = _cl_exempt(repo)
     res.count("functions", len(fns))
     res.count("op_functions", len(sites))
     res.count("entry_points", len(entry))
     for q in sorted(entry):
-        if q in CL_EXEMPT:
+        if q in cl_exempt:
             res.add(f"{q}:construction-time laziness (exempt)", True, fns[q][0].relpath, fns[q][2].lineno,
-                    f"exempt: {CL_EXEMPT[q]}", nec)
+                    f"exempt: {cl_exempt[q]}", nec)
             continue
         # `ensure`/`unit` etc. named like ops in functions.py are constructors
         ok = q not in reach
